@@ -115,6 +115,37 @@ def k1(ctx, kr):
         if st['enc'] == 'utf8-bom': return ok(Str('\ufeffT'))
         return err(Agg('FromUtf8Error', [a[0]]))
     def st_into_bytes(M, fr, callee, a): return a[0].f[0]
+    # byte-level questions about the abstract file, by what the stored form of a text (non-ASCII characters, no NUL character) looks like:
+    # a zero byte occurs exactly in the UTF-16 forms; the file starts with the bytes of its byte-order mark (if it has one) and otherwise with text
+    BOMS = {'utf8-bom': [0xEF, 0xBB, 0xBF], 'utf16le-bom': [0xFF, 0xFE], 'utf16be-bom': [0xFE, 0xFF]}
+    def conc_bytes(M, v):
+        while isinstance(v, Ref): v = M.deref(v)
+        items = v.f if isinstance(v, Agg) else (v if isinstance(v, list) else None)
+        if isinstance(v, Str): return list(v.b)
+        if items is None: return None
+        out = []
+        for x in items:
+            x = simp(x) if is_sym(x) else x
+            if is_sym(x):
+                if not z3.is_bv_value(x): return None
+                x = x.as_long()
+            if not isinstance(x, int): return None
+            out.append(x)
+        return out
+    def st_contains(M, fr, callee, a):
+        fb = file_bytes(M, a[0])
+        if fb is None: return NotImplemented
+        n = conc_bytes(M, Agg('[]', [M.deref(a[1])]))
+        if st['enc'] == 'binary' or fb.f[0] == 'part' or n is None or n[0] != 0: return M.fresh_bool('file_contains_byte')
+        st['used'].append(('bytes', 'contains(0)'))
+        return z3.BoolVal(st['enc'].startswith('utf16'))
+    def st_starts_with(M, fr, callee, a):
+        fb = file_bytes(M, a[0])
+        if fb is None: return NotImplemented
+        pre = conc_bytes(M, a[1])
+        if st['enc'] == 'binary' or fb.f[0] == 'part' or not pre or all(b < 0x80 for b in pre): return M.fresh_bool('file_starts_with')
+        st['used'].append(('bytes', 'starts_with(%s)' % ' '.join('%02X' % b for b in pre)))
+        return z3.BoolVal(BOMS.get(st['enc'], [])[:len(pre)] == pre)
     def st_latin1(M, fr, callee, a):
         # encoding_rs::mem::decode_latin1: every byte is the code point of the same value (ISO-8859-1), no errors, no BOM handling
         text, _ = _decode_contract(M, 'LATIN1', st['enc'], 'decode_without_bom_handling'); st['used'].append(('LATIN1', 'mem::decode_latin1'))
@@ -124,6 +155,7 @@ def k1(ctx, kr):
                           r'^std::string::String::with_capacity$': st_with_capacity, r'^std::fs::read(::<.*>)?$': st_read, r'^std::vec::Vec::<u8>::(len|is_empty)$|^std::vec::Vec::<.*>::(len|is_empty)$|^core::slice::<impl \[.*\]>::(len|is_empty)$': st_len,
                           r'^<std::vec::Vec<u8> as std::ops::Index<std::ops::Range\w*<usize>>>::index$|^<\[u8\] as std::ops::Index<std::ops::Range\w*<usize>>>::index$|^core::slice::<impl \[.*\]>::(get|first_chunk|split_first_chunk)$|^core::slice::index::<impl std::ops::Index<.*> for \[.*\]>::index$': st_slice,
                           r'^<std::vec::Vec<u8> as std::ops::Deref>::deref$|^std::vec::Vec::<.*>::as_slice$|^<std::vec::Vec<.*> as std::convert::AsRef<\[.*\]>>::as_ref$': st_same, r'^std::string::String::from_utf8$|^std::str::from_utf8$|^core::str::from_utf8$': st_from_utf8,
+                          r'^core::slice::<impl \[u8\]>::contains$': st_contains, r'^core::slice::<impl \[u8\]>::starts_with$': st_starts_with,
                           r'^std::string::FromUtf8Error::into_bytes$': st_into_bytes, r'^encoding_rs::mem::decode_latin1$': st_latin1, r"^std::borrow::Cow::<'_, str>::into_owned$|^std::borrow::Cow::into_owned$|^<std::borrow::Cow<'_, str> as std::string::ToString>::to_string$": lambda M_, fr, c, a: (M_.deref(a[0]) if isinstance(a[0], Ref) else a[0]), r'^std::string::String::from_utf8_lossy$': lambda M_, fr, c, a: (_ for _ in ()).throw(Unsupported('from_utf8_lossy over an abstract file')), r'^encoding_rs::Encoding::decode': st_decode, r'^encoding_rs::Encoding::name$': lambda M_, fr, c, a: Ref(Cell(Str('enc'))),
                           r'^source::diagnostic$': lambda M_, fr, c, a: Agg('Diagnostic', [Str('problem:%d' % M_.deref(a[0]).disc if isinstance(M_.deref(a[0]), EnumV) else 'problem')]),
                           r'^<std::io::Error as std::string::ToString>::to_string$': lambda M_, fr, c, a: Str('io error')})
